@@ -86,6 +86,18 @@ pub fn gen_step(s: &mut Incent, rng: &mut Rng, ctx: &mut Ctx) -> Step {
             return marathon;
         }
     }
+    // scripted micro-history: dozens of closed positions of one account pile up before it withdraws
+    if rng.chance(1, 300) {
+        let actor = rng.idx(s.cfg.n_users);
+        let dur = gen_dur(s, rng).clamp(s.cfg.min_dur, s.cfg.max_dur);
+        let cycles = rng.range(28, 45) as u32;
+        let bal = o.bal[actor][A_LP];
+        if bal >= 200 * cycles as u128 && o.open_of(actor, dur).is_none() {
+            ctx.probe("script_restake_marathon");
+            let base = (bal / (2 * cycles as u128)).min(1_000_000_007).max(3);
+            return Step { actor, op: Op::RestakeMarathon { cycles, dur, base }, adv_s: 0, fault: Fault::None };
+        }
+    }
     let na = s.na();
     let snap = o.snap.is_some();
     let any_pos = o.open.iter().any(|v| !v.is_empty());
@@ -649,6 +661,12 @@ pub fn simplify(step: &Step) -> Vec<Step> {
                 for a in shr(*declared) {
                     push(Op::ExpandFlow { flow: flow.clone(), asset: *asset, declared: a, sent: a, end: *end }, step.adv_s, step.fault);
                 }
+            }
+        }
+        Op::RestakeMarathon { cycles, dur, base } => {
+            if *cycles > 1 {
+                push(Op::RestakeMarathon { cycles: cycles / 2, dur: *dur, base: *base }, step.adv_s, step.fault);
+                push(Op::RestakeMarathon { cycles: cycles - 1, dur: *dur, base: *base }, step.adv_s, step.fault);
             }
         }
         Op::ClaimMarathon { gap, rounds } => {
